@@ -65,7 +65,7 @@ impl<T> core::ops::Deref for Rc<T> {
 }
 
 /// std::thread::panicking(): whether this thread is unwinding — either answer is possible wherever a guard is dropped
-pub assume_specification[ std::thread::panicking ]() -> (r: bool);
+pub assume_specification[ ::std::thread::panicking ]() -> (r: bool);
 
 // ===================================================================== WorkerHandleAccept (C01, C02, C08)
 //@check_struct file=actix-server/src/worker.rs name=WorkerHandleAccept fields=idx,conn_tx,counter
@@ -148,6 +148,36 @@ impl ServerWorkerConfig {
 //@spec
     ensures final(self).shutdown_timeout == dur, final(self).max_blocking_threads == old(self).max_blocking_threads,   // [C06]
             final(self).max_concurrent_connections == old(self).max_concurrent_connections,
+//@end
+}
+
+/// std::thread::available_parallelism / NonZeroUsize / std::cmp::max (stand-ins: the real ones are generic std items)
+#[verifier::external_body]
+pub struct NonZeroUsize { _p: () }
+impl NonZeroUsize { #[verifier::external_body] pub fn get(self) -> (r: usize) ensures r >= 1 { unimplemented!() } }
+pub mod std {
+    pub mod thread {
+        use vstd::prelude::*;
+        pub use ::std::thread::panicking;
+        #[verifier::external_body]
+        pub fn available_parallelism() -> (r: Result<crate::NonZeroUsize, crate::IoError>) { unimplemented!() }
+    }
+    pub mod cmp {
+        use vstd::prelude::*;
+        pub fn max(a: usize, b: usize) -> (r: usize) ensures r == (if a >= b { a } else { b }) { if a >= b { a } else { b } }
+    }
+}
+pub assume_specification<T, E, U, F: FnOnce(T) -> U>[ Result::<T, E>::map_or ](x: Result<T, E>, default: U, f: F) -> (r: U)
+    requires x matches Ok(t) ==> f.requires((t,)),
+    ensures x is Err ==> r == default, x matches Ok(t) ==> f.ensures((t,), r);
+
+impl Default for ServerWorkerConfig {
+//@extract file=actix-server/src/worker.rs item="impl Default for ServerWorkerConfig / fn default" ret=r props=C02 name=worker::config::default
+//@spec
+    ensures
+        // a runtime with zero blocking threads cannot be built (tokio panics): the division never rounds down to 0.
+        // (the VALUES of the documented defaults — 25600 connections, 30 s — are not part of any property)
+        1 <= r.max_blocking_threads <= 512,
 //@end
 }
 
